@@ -211,7 +211,8 @@ def large_trace(n, p, npub=3):
 # hypothesis strategies for traces
 
 def trace_strategy(st, p, max_vars=6, max_cons=5):
-    scal = st.one_of(st.integers(-3, 3), st.sampled_from([0, 1, -1, p, p - 1, p + 1, -p, 2 * p + 3, 1 << 255, 1 << 256, (1 << 300) + 7]),
+    scal = st.one_of(st.integers(-3, 3), st.sampled_from([0, 1, -1, p, p - 1, p + 1, -p, 2 * p + 3, 1 << 255, 1 << 256, (1 << 300) + 7,
+                                                           (1 << 61) - 1, 1 << 61, 1 << 64, (1 << 64) + 1]),
                      st.integers(0, p - 1))
     vals = st.one_of(st.integers(-5, 5), st.integers(0, p - 1),
                      st.sampled_from([0, 1, -1, p, p - 1, p + 1, -p - 2, 1 << 256, (1 << 256) + 5, (1 << 300) + 9, -(1 << 260)]))
@@ -236,13 +237,25 @@ def trace_strategy(st, p, max_vars=6, max_cons=5):
             if k == 6:
                 return ["neg", tree(depth + 1)]
             return ["mul", tree(depth + 1), draw(scal)]
+        made = []
+        M61 = (1 << 61) - 1
+
+        def slot():
+            # now and then a combination already used, scaled by 1 + k*M for a machine-sized M: same wires in the same order,
+            # coefficients equal modulo M (what a hash, a cache key or a fixed-width integer would see) but different mod p
+            if made and draw(st.integers(0, 5)) == 0:
+                t = draw(st.sampled_from(made))
+                return ["mul", t, 1 + draw(st.sampled_from([M61, -M61, 2 * M61, 1 << 61, 1 << 64, 1 << 32, (1 << 31) - 1, 1 << 63]))]
+            t = tree(0)
+            made.append(t)
+            return t
         for _ in range(n):
             calls.append([draw(st.sampled_from(["priv", "priv", "pub"])), draw(vals)])
             nv += 1
             while ncons and draw(st.integers(0, 2)) == 0:
-                calls.append(["con", tree(0), tree(0), tree(0)])
+                calls.append(["con", slot(), slot(), slot()])
                 ncons -= 1
         for _ in range(ncons):
-            calls.append(["con", tree(0), tree(0), tree(0)])
+            calls.append(["con", slot(), slot(), slot()])
         return calls
     return gen()
